@@ -194,6 +194,40 @@ pub fn run(case: &Value, _ctx: &Ctx) -> Outcome {
                 Err(m) => out.fail("array/view/get_axis-panic", json!({"panic": m})),
             }
         }
+        "odometer" => {
+            // Odometer.tla with concrete large constants: the whole call history of one view iterator folded into a rolling
+            // hash; len() is compared before every call against the model's closed form (cells of the view - items yielded)
+            let a = obj["axis"].as_u64().unwrap() as usize;
+            let i = obj["pos"].as_u64().unwrap() as usize;
+            let calls = case["calls"].as_u64().unwrap();
+            let res = guarded(|| {
+                let view = array.get_axis(Axis(a), i)?;
+                let mut it = view.iter();
+                let first = *view.iter().next()? as i64;
+                let cells: u64 = shape.iter().enumerate().filter(|(j, _)| *j != a).map(|(_, n)| *n as u64).product();
+                let (mut hash, mut yielded, mut bad_len): (u64, u64, Option<(u64, usize)>) = (0, 0, None);
+                for k in 0..calls {
+                    if it.len() as u64 != cells - yielded && bad_len.is_none() {
+                        bad_len = Some((k, it.len()));
+                    }
+                    let last: i64 = match it.next() {
+                        Some(x) => { yielded += 1; *x as i64 - first }
+                        None => -1,
+                    };
+                    hash = (hash * 31 + (last + 7) as u64) % 1_000_003;
+                }
+                Some((hash, yielded, bad_len))
+            });
+            match res {
+                Ok(Some((hash, yielded, bad_len))) => {
+                    out.check(bad_len.is_none(), || "array/odometer/len".into(), || json!({"call_and_len": format!("{bad_len:?}")}));
+                    out.check(yielded == case["yielded"].as_u64().unwrap(), || "array/odometer/yielded".into(), || json!({"got": yielded, "want": case["yielded"]}));
+                    out.check(hash == case["hash"].as_u64().unwrap(), || "array/odometer/sequence".into(), || json!({"got_hash": hash, "want_hash": case["hash"]}));
+                }
+                Ok(None) => out.fail("array/odometer/no-view", json!({"axis": a, "pos": i})),
+                Err(m) => out.fail("array/odometer/panic", json!({"panic": m})),
+            }
+        }
         "table" => {
             let t = &h[0];
             // The array under test is obtained in three ways - built, cloned, and written over an array of ANOTHER shape
